@@ -831,6 +831,15 @@ func body(t *Term) string {
 	case "fp.to_fp":
 		eb, sb := fpSort(t.W)
 		return fmt.Sprintf("(fp.to_ieee_bv ((_ to_fp %d %d) RNE %s))", eb, sb, toFP(a[0]))
+	case "dec":
+		// correctly rounded m * 10^e: computed in binary128 (exact operands), then rounded to binary64
+		e := t.P[0]
+		op := "fp.mul"
+		if e < 0 {
+			op = "fp.div"
+			e = -e
+		}
+		return fmt.Sprintf("(fp.to_ieee_bv ((_ to_fp 11 53) RNE (%s RNE ((_ to_fp 15 113) RNE %s) ((_ to_fp 15 113) RNE 1%s.0))))", op, ref(a[0]), strings.Repeat("0", e))
 	case "uf":
 		parts := make([]string, len(a))
 		for i, x := range a {
